@@ -98,6 +98,12 @@ class G:
                     and inner[i] not in ('===', '---') and (i + 1 >= len(inner) or inner[i + 1] not in ('===', '---')):
                 lines[i] = inner[i]
                 self.kinds['lazy_line'] = self.kinds.get('lazy_line', 0) + 1
+        # a quote may begin with marker-only lines: its blocks then start that many lines below the quote's own line
+        if rng.random() < 0.2:
+            k = rng.randint(1, 2)
+            self.kinds['quote_blank_first'] = self.kinds.get('quote_blank_first', 0) + 1
+            lines = [rng.choice(['>', '> '])] * k + lines
+            nodes = self.shift(nodes, k)
         return lines, [('Quote', 0, nodes)]
 
     def list_(self, depth):
